@@ -45,34 +45,45 @@ Theorem T13_total_plus_one : forall xs, exs_ok xs ->
 Proof. exact (fun xs => total_counts_requests xs ob_flags). Qed.
 Print Assumptions T13_total_plus_one.
 
-(* closeListener.Close under n concurrent callers, ANY interleaving: when all
-   have returned the callback ran once (n >= 1) and the underlying Close n times *)
-Theorem T13_close_once : forall n ls s,
-  crun close_uses_once (cinit n) ls = Some s -> cfinal s ->
+(* closeListener.Close under n concurrent callers, ANY interleaving, whether or not a layer below the
+   wrapper has already closed the connection (pre): when all have returned the callback ran once
+   (n >= 1) and the underlying Close n times *)
+Theorem T13_close_once : forall n pre ls s,
+  crun close_uses_once close_returns_early_on_errclosed (cinit n pre) ls = Some s -> cfinal s ->
   fired s = (if Nat.eqb n 0 then 0 else 1)%nat /\ under s = n /\ nd s = n.
-Proof. exact (close_once_tab ob_close_uses_once). Qed.
+Proof. exact (close_once_tab ob_close_uses_once ob_close_not_early). Qed.
 Print Assumptions T13_close_once.
 
 (* ... at no point of any schedule has the callback run twice ... *)
-Theorem T13_close_never_twice : forall n ls s, crun close_uses_once (cinit n) ls = Some s -> (fired s <= 1)%nat.
-Proof. exact (close_never_twice_tab ob_close_uses_once). Qed.
+Theorem T13_close_never_twice : forall n pre ls s,
+  crun close_uses_once close_returns_early_on_errclosed (cinit n pre) ls = Some s -> (fired s <= 1)%nat.
+Proof. exact (close_never_twice_tab ob_close_uses_once ob_close_not_early). Qed.
 Print Assumptions T13_close_never_twice.
 
 (* ... and no schedule can get stuck before every caller has returned. *)
-Theorem T13_close_progress : forall n ls s,
-  crun close_uses_once (cinit n) ls = Some s -> ~ cfinal s -> exists l s', cstep close_uses_once s l = Some s'.
-Proof. exact (close_progress_tab ob_close_uses_once). Qed.
+Theorem T13_close_progress : forall n pre ls s,
+  crun close_uses_once close_returns_early_on_errclosed (cinit n pre) ls = Some s -> ~ cfinal s ->
+  exists l s', cstep close_uses_once close_returns_early_on_errclosed s l = Some s'.
+Proof. exact (close_progress_tab ob_close_uses_once ob_close_not_early). Qed.
 Print Assumptions T13_close_progress.
 
 (* Without sync.Once two callers run the callback twice (why the obligation is needed). *)
-Theorem T13_close_once_refuted_without_once : exists ls s, crun false (cinit 2) ls = Some s /\ cfinal s /\ fired s = 2%nat.
+Theorem T13_close_once_refuted_without_once : exists ls s, crun false false (cinit 2 false) ls = Some s /\ cfinal s /\ fired s = 2%nat.
 Proof. exact direct_fires_twice. Qed.
 Print Assumptions T13_close_once_refuted_without_once.
 
+(* A Close that returns before the Once when the underlying Close reports "already closed" never runs
+   the callback for a connection that a lower layer closed first (e.g. the PROXY-protocol reader after
+   its header timeout): why `close_returns_early_on_errclosed = false` is an obligation. *)
+Theorem T13_close_once_refuted_with_early_return :
+  exists ls s, crun true true (cinit 1 true) ls = Some s /\ cfinal s /\ fired s = 0%nat.
+Proof. exact early_return_never_fires. Qed.
+Print Assumptions T13_close_once_refuted_with_early_return.
+
 (* Active-connection gauge: every connection closed by >= 1 concurrent callers
    (any schedule each) leaves the gauge at zero. *)
-Theorem T13_active_zero : forall (conns : list (nat * list clabel)) fires,
-  Forall2 (fun c k => (fst c >= 1)%nat /\ conn_run (fst c) (snd c) = Some k) conns fires ->
+Theorem T13_active_zero : forall (conns : list (nat * bool * list clabel)) fires,
+  Forall2 (fun c k => (fst (fst c) >= 1)%nat /\ conn_run (fst (fst c)) (snd (fst c)) (snd c) = Some k) conns fires ->
   active_after fires = 0%Z.
 Proof. exact active_zero_conns. Qed.
 Print Assumptions T13_active_zero.
@@ -82,5 +93,5 @@ Example T13_example :
   let v := Build_val RdOk false true false false RtOk St2xx false false CnOk WOk false false AfPlain in
   active v = true /\
   run v = [ERead true; EModReq; EDial; EModRes SConnOK; EHead SConnOK; EBodyEnd; ETunnel; EWrote SConnOK LOwn false; EClose] /\
-  crun close_uses_once (cinit 3) (csched_seq 3) = Some (mkcst 0 0 0 0 3 true 1 3).
+  crun close_uses_once close_returns_early_on_errclosed (cinit 3 true) (csched_seq 3) = Some (mkcst 0 0 0 0 3 true 1 3 true).
 Proof. exact (conj eq_refl (conj eq_refl eq_refl)). Qed.
